@@ -614,12 +614,15 @@ func (r *vecRun) exec(op vop) error {
 		nr, err := fresh.ReadFrom(rd)
 		rest, _ := io.ReadAll(rd)
 		ok := err == nil && bytes.Equal(rest, trailer)
+		// the source (after its WriteTo) and the reloaded index answer a fixed family of queries
+		qa, qb := r.probe(r.idx), [][][2]int64{}
 		if err == nil {
+			qb = r.probe(fresh)
 			r.idx = fresh
 			r.reloaded = true
 			r.trained = fresh.Trained() || !e.needsTraining()
 		}
-		r.t.ev("reload", E{"ok": ok, "nw": nw, "nr": nr, "len": l, "rest": len(rest), "trailer": len(trailer)})
+		r.t.ev("reload", E{"ok": ok, "nw": nw, "nr": nr, "len": l, "rest": len(rest), "trailer": len(trailer), "qa": qa, "qb": qb})
 	case "search":
 		s := r.idx.NewSearch().WithK(op.K)
 		qv := [][]float32{}
@@ -733,6 +736,22 @@ func (r *vecRun) battery() error {
 		}
 	}
 	return nil
+}
+
+// probe: answers of an index to a fixed family of queries (ids and fixed-point scores)
+func (r *vecRun) probe(idx comet.VectorIndex) [][][2]int64 {
+	out := [][][2]int64{}
+	for q := 0; q < r.e.NQ; q++ {
+		for _, k := range []int{3, -1} {
+			rs, _ := idx.NewSearch().WithQuery(cp(r.e.qs[q])).WithK(k).WithNProbes(-1).Execute()
+			res := [][2]int64{}
+			for _, x := range rs {
+				res = append(res, [2]int64{int64(x.GetId()), fx(float64(x.GetScore()), r.e.scale)})
+			}
+			out = append(out, res)
+		}
+	}
+	return out
 }
 
 func nzi(x []int) []int {
